@@ -66,6 +66,8 @@ def fabricate(tok, version):
         return ChangeCipherSpec().create()
     if tok == "APP":
         return ApplicationData().create(bytearray(b"early-data"))
+    if tok == "APP0":
+        return ApplicationData().create(bytearray(b""))
     if tok == "KU":
         return KeyUpdate().create(0)
     if tok == "CR":
